@@ -186,7 +186,7 @@ def native_replay(pid, run, fn, viol, outdir, env, idx):
         rep[os.path.join(REPO, vpath)] = os.path.join(V, real)
     ov = os.path.join(d, "overlay.json")
     json.dump({"Replace": rep}, open(ov, "w"), indent=1)
-    cmd = ["go", "test", "-overlay", ov, "-ldflags=-checklinkname=0", "-vet=off", "-count=1", "-run", "^TestZZReplay$", "./" + run["dir"]]
+    cmd = ["go", "test", "-overlay", ov, "-ldflags=-checklinkname=0", "-vet=off", "-count=1", "-v", "-run", "^TestZZReplay$", "./" + run["dir"]]
     try:
         r = subprocess.run(cmd, cwd=REPO, capture_output=True, text=True, env=dict(GOENV, ZZ_MODEL=model), timeout=600)
         out = r.stdout + r.stderr
@@ -201,6 +201,17 @@ def native_replay(pid, run, fn, viol, outdir, env, idx):
     if "[build failed]" in out or "[setup failed]" in out:
         return "replay-build-failed", out[-1500:], model
     return ("reproduced" if ok else "not-reproduced"), out[-1500:], model
+
+
+def native_trace(pid, run, fn, model, outdir, env, tag):
+    """Runs the harness natively on a concrete model; returns (set of reached labels, set of failed assertion labels, raw)."""
+    v = {"model": model, "label": "trace", "path": None}
+    status, detail, mpath = native_replay(pid, run, fn, v, outdir, env, tag)
+    out = open(os.path.join(os.path.dirname(mpath), "replay.log")).read()
+    reached = set(re.findall(r"^ZZ-REACH (.+)$", out, re.M))
+    failed = set(re.findall(r"^ZZ-ASSERT-FAIL (.+)$", out, re.M))
+    bad = ("[build failed]" in out) or ("panic:" in out) or ("ZZ-ASSUME-VIOLATED" in out) or ("REPLAY-TIMEOUT" in out)
+    return reached, failed, bad, out[-800:]
 
 
 def match_known(pid, fnname, viol):
@@ -287,6 +298,31 @@ def main():
         for f in futs:
             results += f.result()
 
+    # translator validation: completed sample paths are re-run natively (real compiler, real libraries) and
+    # must reach the same witnesses and fail no assertion
+    nval = int(os.environ.get("VERIF_TRACE_SAMPLES", "1" if tier == "quick" else "6"))
+    trace_jobs = []
+    for r in results:
+        fn, run = r["fn"], r["run"]
+        fr0 = (r["res"] or {}).get("funcs") or []
+        if not fr0 or run.get("replay", "native") != "native" or fn.get("replay") or nval <= 0:
+            continue
+        for si, smp in enumerate((fr0[0].get("samples") or [])[:nval]):
+            trace_jobs.append((fn.get("id", fn["name"]), run, fn, smp, r["env"], si))
+
+    def one_trace(job):
+        name, run, fn, smp, env, si = job
+        reached, failed, badrun, tail = native_trace(pid, run, fn, smp["model"], outdir, env, 900 + si)
+        want = set(smp.get("reached") or [])
+        if badrun or failed or not want.issubset(reached):
+            return name, False, {"sample": si, "engine_reached": sorted(want), "native_reached": sorted(reached), "native_failed": sorted(failed), "tail": tail[-300:]}
+        return name, True, None
+    trace_results = {}
+    with cf.ThreadPoolExecutor(max_workers=4) as ex:
+        for name, ok, bad in ex.map(one_trace, trace_jobs):
+            okc, badc = trace_results.get(name, (0, []))
+            trace_results[name] = (okc + (1 if ok else 0), badc + ([bad] if bad else []))
+
     violations = 0
     lines = []
     warn = []
@@ -331,7 +367,7 @@ def main():
         tot["inconcl"] += sum(inc.values())
         executed.update(fr.get("executed") or [])
         stubs.update(fr.get("stubs") or [])
-        for s in (fr.get("samples") or [])[:2]:
+        for s in (fr.get("samples") or [])[:3]:
             samples.append({"func": name, **s})
         fe = {"func": fn["name"], "id": name, "pkg": run["pkg"], "bounds": r["env"], "bounds_note": tier_sel(fn, tier, "bounds_note", fn.get("bounds_note", "")),
               "paths": fr["paths"], "queries": fr["queries"], "merges": fr["merges"],
@@ -340,6 +376,13 @@ def main():
               "path_ends": {k: v for k, v in wit.items() if k.startswith("end:")},
               "inconclusive": inc, "truncated": fr.get("truncated", False), "missing_witnesses": missing,
               "encoding": "Int (interval-aware)" if fs_int(fn, run) else "BitVec", "violations": []}
+        if name in trace_results:
+            okc, badc = trace_results[name]
+            fe["traces_validated_against_impl"] = okc
+            tot["traces"] = tot.get("traces", 0) + okc
+            if badc:
+                fe["trace_mismatches"] = badc
+                warn.append("WARN TRANSLATOR-MISMATCH %s: %d sample path(s) behave differently when run natively" % (name, len(badc)))
         if missing:
             warn.append("WARN vacuity %s: expected witnesses not reached: %s" % (name, missing))
         if inc:
@@ -419,6 +462,7 @@ def main():
             "evaluations": tot["paths"], "distinct_nontrivial": nontrivial,
             "rule": "evaluations = symbolic paths explored (each path is a distinct decision sequence and stands for all inputs satisfying its path condition); distinct_nontrivial = paths (counted by the engine) that reached at least one harness assertion or reachability witness with a satisfiable path condition",
             "obligations": oblig, "discharged": discharged,
+            "traces_validated_against_impl": tot.get("traces", 0),
             "solver_queries": tot["queries"], "solver_wall_s": round(tot["solver_s"], 2), "inconclusive_paths": tot["inconcl"],
             "checker_cmd": "python3 /verif/check.py %s --tier %s" % (pid, tier),
             "solver": sh(["z3", "--version"]).stdout.strip(),
